@@ -82,6 +82,47 @@ def wf_tree(name):
     return r[0]
 
 
+def tree_shapes(n):
+    """all PAIR trees with n leaves"""
+    if n == 1:
+        return ['L']
+    out = []
+    for k in range(1, n):
+        for a in tree_shapes(k):
+            for b in tree_shapes(n - k):
+                out.append((a, b))
+    return out
+
+
+def tree_letters(t, left=True):
+    return ('A' if left else 'I') if t == 'L' else 'P' + tree_letters(t[0], True) + tree_letters(t[1], False)
+
+
+def wf_tree_names(max_leaves):
+    """names of all well-formed PAIR tree macros with 3..max_leaves leaves (PAIR itself is a primitive)"""
+    return [tree_letters(t) + 'R' for n in range(3, max_leaves + 1) for t in tree_shapes(n)]
+
+
+def distinct_stack(name):
+    """stack of matching shape with pairwise distinct int leaves (mis-nesting / mis-ordering becomes visible)"""
+    INT = ('int',)
+    m = re.fullmatch(r'(UN)?(P[PAI]{3,}R)', name)
+    t = wf_tree(m.group(2)) if m else None
+    if t is None:
+        return None
+    if not m.group(1):
+        return [(INT, ('I', 10 + i)) for i in range(n_leaves(t) + 2)]
+    cnt = [10]
+
+    def mk(tr):
+        if tr == 'L':
+            cnt[0] += 1
+            return INT, ('I', cnt[0])
+        (ta, va), (tb, vb) = mk(tr[0]), mk(tr[1])
+        return ('pair', ta, tb), ('P', va, vb)
+    return [mk(t), (INT, ('I', 1)), (INT, ('I', 2))]
+
+
 def n_leaves(t):
     return 1 if t == 'L' else n_leaves(t[0]) + n_leaves(t[1])
 
@@ -639,6 +680,13 @@ def run(ctx: lib.Ctx) -> None:
     T['tables'] = round(time.time() - t0, 1)
     # ---- (1) syntactic correspondence ----------------------------------------------------------
     names = fixed_names() + list(family_names(maxlen))
+    # well-formed PAIR / UNPAIR trees are few: go deeper than the length bound for them (every tree shape)
+    max_leaves = ctx.n(6, 8)
+    seen = set(names)
+    deep = [n for w in wf_tree_names(max_leaves) for n in (w, 'UN' + w) if n not in seen]
+    names += deep
+    ctx.extra['wellformed_tree_shapes_up_to_leaves'] = max_leaves
+    ctx.extra['wellformed_tree_names_beyond_length_bound'] = len(deep)
     ctx.extra['accepted_names_enumerated'] = len(names)
     illformed = [n for n in names if re.fullmatch(r'(UN)?P[PAI]{3,}R', n) and wf_tree(n[2:] if n.startswith('UN') else n) is None]
     ctx.extra['illformed_pair_tree_names_reported_not_alarmed'] = len(illformed)
@@ -702,22 +750,38 @@ def run(ctx: lib.Ctx) -> None:
         rep = {'correspondence': 'C19/expand_macro vs Michelson.Macros.expand', 'name': name, 'annots': list(annots), 'args': args,
                'implementation': out, 'model': ctx.coq_eval(IMPORTS, f"let '(n, a, g) := {cases[bad[0]][0]} in expand n a g"),
                'disagreements': len(bad), 'repro': f'pytezos.michelson.macros.expand_macro({name!r}, {list(annots)!r}, {args!r})'}
-        # search for a failing input of the property itself around the disagreement
+        # search for a failing input of the property itself: run THE disagreeing macro (and, for the tree families,
+        # every well-formed tree macro up to 7 leaves) on the real interpreter on stacks of matching shape, first with
+        # pairwise distinct values, and compare with the reference meaning
         found = None
-        if ref_outcome(name, args, []) is not None or True:
-            for _ in range(40):
-                st = matching_stack(rng, name)
-                ar = arity(name)
+        bad_names = []
+        for i in bad:
+            if meta[i][0] not in bad_names:
+                bad_names.append(meta[i][0])
+        cands = [(n, meta[[m[0] for m in meta].index(n)][1]) for n in bad_names[:60]]
+        if any(re.fullmatch(r'(UN)?P[PAI]{3,}R', n) for n in bad_names):
+            cands += [(n, ()) for w in wf_tree_names(7) for n in (w, 'UN' + w)]
+        for cname, cannots in cands:
+            ar = arity(cname)
+            for k in range(6 if ar else 3):
+                st = distinct_stack(cname) if k == 0 else None
+                if st is None:
+                    st = matching_stack(rng, cname)
                 texts = [rng.choice(ARG_POOL) for _ in range(ar)]
-                code, got = impl_run(name, [a for a in annots if annots_allowed(name)], texts, st)
-                want = ref_outcome(name, [parse_arg(t) for t in texts], [v for _, v in st])
+                ann = [a for a in cannots if annots_allowed(cname)] if k % 2 == 0 else []
+                if cname.startswith('MAP_C'):
+                    ann = ann[:1]
+                code, got = impl_run(cname, ann, texts, st)
+                want = ref_outcome(cname, [parse_arg(t) for t in texts], [v for _, v in st])
                 if want is not None and got != want:
-                    found = {'code': code, 'interpreter': got, 'reference_meaning': want,
+                    found = {'failing_macro': cname, 'code': code, 'interpreter': got, 'reference_meaning': want,
                              'repro': f'Interpreter().execute({code!r})'}
                     break
+            if found:
+                break
         if found:
             rep.update(found)
-            ctx.violation(f'macro {name}: the interpreter result differs from the reference meaning', rep, found=True)
+            ctx.violation(f"macro {found['failing_macro']}: the interpreter result differs from the reference meaning", rep, found=True)
         else:
             ctx.violation('expand_macro no longer corresponds to the model the theorems are about', rep, found=False)
         violations += 1
@@ -748,6 +812,8 @@ def run(ctx: lib.Ctx) -> None:
                 if name.startswith('MAP_C') and sum(a.startswith('%') for a in annots) > 1:
                     annots = annots[:1]
             st = matching_stack(rng, name)
+            if rep_i == 0 and distinct_stack(name) is not None:
+                st = distinct_stack(name)
             shape = 'match'
             if rep_i == reps - 1 and rng.random() < 0.7:
                 st = perturb(rng, st)
